@@ -54,6 +54,8 @@ type Walk struct {
 	Height     int
 	// RootTime, when non-nil, replaces the root's mtime in the dump (canonicalisation of time.Now())
 	RootTime *time.Time
+	// RootTimeLabel, when non-nil, maps the root's mtime to the label printed in the dump (C10: original | "R")
+	RootTimeLabel func(time.Time) string
 	// CanonLeaf prints every dag-pb node without links as type "L" (C10: File- and Raw-typed leaves mix)
 	CanonLeaf bool
 }
@@ -107,8 +109,12 @@ func (wk *Walk) Dump(n ipld.Node, depth int) (uint64, []byte) {
 		if depth == 0 && wk.RootTime != nil {
 			mt = *wk.RootTime
 		}
+		mts := ShowTime(mt)
+		if depth == 0 && wk.RootTimeLabel != nil {
+			mts = wk.RootTimeLabel(mt)
+		}
 		fmt.Fprintf(&wk.SB, "P(%s;%d;%s;%s;%d;%s)", ty, fsn.FileSize(), data, strings.Join(bss, ","),
-			files.ModePermsToUnixPerms(fsn.Mode()), ShowTime(mt))
+			files.ModePermsToUnixPerms(fsn.Mode()), mts)
 		if len(nd.Links()) == 0 {
 			wk.LeafDepths[depth] = true
 			if fsn.FileSize() != uint64(len(fsn.Data())) {
